@@ -246,6 +246,16 @@ def pack_standard(evs):
             base["n"] = int(e["n"])
         elif ev == "ckpt_call":
             pack_ckpt_call(e, base)
+        elif ev == "train_check":
+            for k in ("train", "force", "completed", "populated", "train_on_empty", "populating", "acc_low",
+                      "retrain_acc"):
+                base[k] = bool(e[k])
+            base.update(it=int(e["it"]), last=int(e["last"]), freq=int(e["freq"]))
+        elif ev == "train_call":
+            for k in ("force", "trained", "reset_w", "reset_p", "reset_acc", "acc_low"):
+                base[k] = bool(e[k])
+            for k in ("it", "last", "cooldown", "tc", "rw", "rp", "n_live", "n_dead", "memory", "data_n"):
+                base[k] = int(e[k])
         elif ev == "resume_checked":
             # the pool is usable after check_resume iff it was usable when the checkpoint was written
             # (only judged when the latest checkpoint was restored)
